@@ -535,3 +535,66 @@ def falsy_numeric_default(fn):
         elif isinstance(n, ast.IfExp) and isinstance(n.test, ast.Name) and isinstance(n.body, ast.Name) and n.body.id == n.test.id and numeric(n.orelse):
             out.append((n, n.test.id))
     return out
+
+
+def never_bound_names(fn, mi, prog=None):
+    """[(Name node)]: names the function reads that are bound nowhere -- not a parameter, never assigned in the function (on any path), not a
+    module-level definition / import (of the module or of its declaration file), not a builtin: reading them raises NameError /
+    UnboundLocalError.  (The typical cause is a deleted or renamed defining statement.)  Modules with star imports are skipped."""
+    import builtins
+    if getattr(mi, 'star_imports', None):
+        return []
+    pm = prog.modules.get(mi.name + '#pxd') if prog is not None else None
+    if pm is not None and pm.star_imports:
+        return []
+    known = set(dir(builtins)) | {'__cast__', 'sizeof', 'NULL', '__file__', '__name__', '__doc__', '__cy_unsupported__', '__last__', 'cython', 'self', 'cls'}
+    known |= set(dict.keys(mi.functions)) | set(mi.classes) | set(mi.assigns) | set(mi.imports)
+    if pm is not None:
+        known |= set(dict.keys(pm.functions)) | set(pm.classes) | set(pm.assigns) | set(pm.imports)
+    for st in ast.walk(mi.tree):
+        if isinstance(st, (ast.FunctionDef, ast.ClassDef)) and st in mi.tree.body:
+            continue
+    for st in mi.tree.body:
+        if isinstance(st, (ast.FunctionDef, ast.ClassDef)):
+            known.add(st.name)
+            continue
+        for t in ast.walk(st):
+            if isinstance(t, ast.Name) and isinstance(t.ctx, ast.Store):
+                known.add(t.id)
+            elif isinstance(t, ast.alias):
+                known.add((t.asname or t.name).split('.')[0])
+    if pm is not None:
+        for st in pm.tree.body:
+            for t in ast.walk(st):
+                if isinstance(t, ast.Name) and isinstance(t.ctx, ast.Store):
+                    known.add(t.id)
+                elif isinstance(t, ast.alias):
+                    known.add((t.asname or t.name).split('.')[0])
+                elif isinstance(t, (ast.FunctionDef, ast.ClassDef)):
+                    known.add(t.name)
+    bound = set()
+    for n in ast.walk(fn):
+        if isinstance(n, ast.arg):
+            bound.add(n.arg)
+        elif isinstance(n, ast.Name) and isinstance(n.ctx, (ast.Store, ast.Del)):
+            bound.add(n.id)
+        elif isinstance(n, (ast.FunctionDef, ast.ClassDef)) and n is not fn:
+            bound.add(n.name)
+        elif isinstance(n, ast.alias):
+            bound.add((n.asname or n.name).split('.')[0])
+        elif isinstance(n, ast.ExceptHandler) and n.name:
+            bound.add(n.name)
+        elif isinstance(n, (ast.Global, ast.Nonlocal)):
+            bound |= set(n.names)
+        elif isinstance(n, ast.AnnAssign) and isinstance(n.target, ast.Name):
+            bound.add(n.target.id)
+    out, seen = [], set()
+    deco = {id(x) for d in fn.decorator_list for x in ast.walk(d)}       # '@prop.setter' names live in the class scope
+    for n in ast.walk(fn):
+        if id(n) in deco:
+            continue
+        if isinstance(n, ast.Name) and isinstance(n.ctx, ast.Load) and n.id not in bound and n.id not in known and n.id not in seen \
+                and not n.id.startswith('__'):
+            seen.add(n.id)
+            out.append(n)
+    return out
